@@ -106,10 +106,10 @@ def run_job(job):
                 otxt = ""
             M = len(all_rows)
             universe = collections.Counter(all_rows)
-            ns = list(range(1, M + 3)) + [0, None]
+            ns = list(range(1, M + 3)) + [0, None, 2147483647, 2147483648, 4294967295]      # limits around 2^31 and 2^32 - 1 are legal
             if M > 45:
                 ns = sorted(set(rng.sample(range(1, M + 3), 40) + [1, M - 1, M, M + 1, M + 2]
-                                + [x for x in (255, 256, 257, 1023, 1024, 1025) if x <= M])) + [0, None]
+                                + [x for x in (255, 256, 257, 1023, 1024, 1025) if x <= M])) + [0, None, 2147483648, 4294967295]
             all_ok = True
             # a column without any file attribute next to `path` must not change how many rows come back
             extra_col = rng.choice(["", "", ", 'tag'", ", 1 + 2", ", upper('x')", ", 7"])
